@@ -211,3 +211,19 @@ Example C10_examples :
   (* a finite quotient as [C10_half_unit_error] assumes *)
   fx_of (b64_div (b64_of_Z 12125) (b64_of_Z 1000)) 2 = FxFin false 1212.
 Proof. vm_compute. repeat split; reflexivity. Qed.
+
+(** ** refuted at full strength for shared scales (known finding
+    C10_shared_scale_quotient_overflow): 1e305 scaled together with 1e-9 gets
+    the factor of "n"; the binary64 quotient 1e305 / 1e-9 overflows and the
+    finite value prints as "+Infn", which is not within half a unit of it.
+    [C10_half_unit_error] therefore carries the hypothesis that the quotient is
+    finite; the harness generates such multisets and tags them. *)
+Theorem C10_shared_scale_overflow_refuted :
+  exists vals v s, In v vals /\ valid_binary 53 1024 v = true /\ sf_finite v = true /\
+    common_scale vals Decimal = Some s /\
+    format (fun _ => []) s v = bs "+Infn".
+Proof.
+  exists [b64_of_dec false 1 (-9); b64_of_dec false 1 305], (b64_of_dec false 1 305).
+  eexists. vm_compute. repeat split; try reflexivity. right; left; reflexivity.
+Qed.
+Print Assumptions C10_shared_scale_overflow_refuted.
